@@ -44,9 +44,17 @@ GET_BODY = [ANY(x) for x in [
     {'rule': 'R8', 'regex': r'self\.resolve\(key\)\.and_then\(\|p\| (T::from_primitive\(p, self\))\)',
      'replace': r'(match self.resolve(key) { Ok(p) => \1, Err(e__) => Err(e__) })'},
     {'rule': 'R7', 'regex': r'Shared::new\(', 'replace': 'hoist_shared_new('},
-    {'rule': 'R7', 'regex': r'Arc::new\(e\)', 'replace': 'hoist_arc_new(e)'},
+    {'rule': 'R7', 'regex': r'(?<![\w:])Arc::new\(', 'replace': 'hoist_arc_new('},
     {'rule': 'R7', 'regex': r'(T::from_primitive\(p, self\)\?)\.into\(\)', 'replace': r'hoist_into_shared(\1)'},
-    {'rule': 'R3', 'regex': r'PdfError::Shared \{ source: e\.clone\(\)\s*\}', 'replace': 'PdfError::Shared { source: hoist_shared_source(&e) }'},
+    # R3, by shape: the twin keeps the source of `Shared` in a Box; the source EXPRESSION (`e.clone()`, `Arc::clone(&e)`, `e`) stays verbatim
+    {'rule': 'R3', 'regex': r'PdfError::Shared\s*\{\s*source:\s*([^{}]*?)\s*\}', 'replace': r'PdfError::Shared { source: hoist_shared_box(\1) }'},
+    # R3: `Other { msg }` has its String payload dropped in the twin (construction sites outside the `other!`/`bail!` macros)
+    {'rule': 'R3', 'regex': r'PdfError::Other\s*\{\s*msg:\s*[^{}]*\}', 'replace': 'PdfError::Other'},
+    # R7: `Arc::try_unwrap(x)` (std: the value if this is the only owner, else the Arc back)
+    {'rule': 'R7', 'regex': r'(?<![\w:])Arc::try_unwrap\(', 'replace': 'hoist_arc_try_unwrap('},
+    # R8: forwarding closure of Result::unwrap_or_else inlined: `CALL(..).unwrap_or_else(|v| E)` -> `match CALL(..) { Ok(t) => t, Err(v) => E }`
+    {'rule': 'R8', 'regex': r'(?<![\w.:])(\w+(?:::\w+)*\((?:[^()]|\([^()]*\))*\))\s*\.\s*unwrap_or_else\(\s*\|\s*(\w+)\s*\|\s*((?:[^()]|\((?:[^()]|\([^()]*\))*\))*?)\s*\)',
+     'replace': r'(match \1 { Ok(t__) => t__, Err(\2) => \3 })'},
 ]]
 
 KEY = 'r.inner'
